@@ -658,6 +658,10 @@ class Interp:
             return [(sg, self.read_op(body, env, rv["o"], sg))]
         if r == "ref":
             if rv.get("mut"):
+                # a mutable borrow of a value the domain does not track (an opaque encoder, an iterator) changes nothing it knows
+                v = self.read_place(body, env, rv["p"], sg)
+                if isinstance(v, Opaque) or (isinstance(v, Ref) and isinstance(v.v, Opaque)):
+                    return [(sg, Ref(v) if isinstance(v, Opaque) else v)]
                 raise LeaveDomain("mutable borrow")
             return [(sg, Ref(self.read_place(body, env, rv["p"], sg)))]
         if r == "bin":
